@@ -13,7 +13,7 @@ func template(r *vh.RNG) *Scenario {
 		scn.Mailbox = "GlobalOrderedLockFree"
 	}
 	tell := func(t, n int) Label { return Label{K: "tell", T: t, N: n} }
-	switch r.Intn(8) {
+	switch r.Intn(9) {
 	case 0:
 		// all-for-one: the root restarts ALL its children when A (token 1) fails; B (token 2) is healthy, has a child
 		// (token 3) and traffic in flight while it waits for that child during its restart
@@ -100,6 +100,17 @@ func template(r *vh.RNG) *Scenario {
 		if r.Bool() {
 			scn.Exts = scn.Exts[:3] // straight to Shutdown
 		}
+	case 8:
+		// watch requests handled while the target is RESTARTING (it waits for its child): a restarting actor is not
+		// terminating — the watcher is registered, gets nothing now and exactly one notice at the real termination
+		scn.Roles = []Role{
+			{Victim: "resume", Sup: []string{"restart", "restart"}, Rules: []Rule{{On: "L", N: -1, Inst: -1, Do: []Action{{K: "spawn", T: 1, R: 1}, {K: "spawn", T: 3, R: 3}}}}},
+			{Rules: []Rule{{On: "L", N: -1, Inst: -1, Do: []Action{{K: "spawn", T: 2, R: 2}}}, {On: "P", N: 0, Inst: 0, Do: []Action{{K: "panic"}}}}},
+			{Victim: "resume", Rules: []Rule{{On: "T", N: -1, Inst: -1, Do: []Action{{K: "tell", T: 3, N: 1}}}}},
+			{Victim: "resume", Rules: []Rule{{On: "P", N: 0, Inst: -1, Do: []Action{{K: "watch", T: 1}}}, {On: "P", N: 1, Inst: -1, Do: []Action{{K: "watch", T: 1}}},
+				{On: "TO", N: 1, Inst: -1, Do: []Action{{K: "tell", T: 0, N: 1}}}}},
+		}
+		scn.Exts = []Label{{K: "spawn", T: 0, R: 0}, tell(3, 0), tell(1, 0), tell(3, 1), tell(3, 0), tell(1, 1), {K: "term", T: 1, G: r.Bool()}, tell(3, 1)}
 	default:
 		// watch requests racing with a termination: two observers, one of them the parent
 		scn.Roles = []Role{
